@@ -82,7 +82,13 @@ def verify(body, inputs_of=None, replay=None, check_side=True, timeout_ms=30000,
         c.inputs = {}
         it = interp_mod.Interp(c)
         c.interp = it
-        g = body(c, it)
+        try:
+            g = body(c, it)
+        except interp_mod.PyRaise as pr:
+            # the code under contract raised on a feasible path and the contract did not
+            # expect it: a failed obligation (the path condition gives the witness)
+            g = [Goal("no unexpected exception (got %s: %s)" % (type(pr.exc).__name__, str(pr.exc)[:120]), False)]
+            c.side = []
         return it, g
 
     try:
